@@ -30,6 +30,7 @@ void harness(void) {
   CG_ENTRY_STATE(1);
   (void)verif_val(0); (void)cg_holds(n.ty, 0); (void)cg_x87_delta(n.ty);
   gen_expr(&n);
+  REACH("gen_expr returns");
   OBLIGE(!m.skip, "C03.5 no pending jump: every label jumped to was emitted");
   OBLIGE((cg_child_at[0] >= 0) == eval_a, "C03.5 first/then operand evaluated exactly when C11 says");
   OBLIGE((cg_child_at[1] >= 0) == eval_b, "C03.5 second/else operand evaluated exactly when C11 says");
